@@ -266,3 +266,74 @@ fn c03_union_reset_restores_initial_state() {
     kani::cover!(downsized && lg_max_k == 12);
     core::mem::forget((fresh, u));
 }
+
+// ---------------------------------------------------------------------------------------------
+// Coupon-mode (list) input into an empty union: the union keeps its configured lg_k
+// ---------------------------------------------------------------------------------------------
+
+fn cut_update_from_array(_u: &mut HllUnion, _m: &Mode, _s: u8, _d: u8) {
+    panic!("verif cut: array path reached for a list input");
+}
+fn cut_a4(_a: &mut crate::hll::array4::Array4, _c: u32) {
+    panic!("verif cut: array update reached while the gadget is a list");
+}
+fn cut_a6(_a: &mut crate::hll::array6::Array6, _c: u32) {
+    panic!("verif cut: array update reached while the gadget is a list");
+}
+fn cut_a8(_a: &mut Array8, _c: u32) {
+    panic!("verif cut: array update reached while the gadget is a list");
+}
+fn cut_set(_s: &mut crate::hll::hash_set::HashSet, _c: u32) {
+    panic!("verif cut: set update reached while the gadget is a list");
+}
+
+fn sparse_first_case(lg_src: u8, lg_max: u8, t: HllType) {
+    let c: u32 = kani::any();
+    kani::assume(crate::hll::get_value(c) >= 1);
+    let mut s = HllSketch::new(lg_src, t);
+    s.update_with_coupon(c);
+    let mut u = HllUnion::new(lg_max);
+    u.update(&s);
+    assert!(u.lg_config_k() == lg_max, "a coupon-mode input changed the union's lg_k: only array inputs of smaller lg_k down-size it");
+    match u.gadget.mode() {
+        Mode::List { list, .. } => {
+            assert!(list.container().len() == 1 && list.container().coupons[0] == c, "the input's coupon is not in the union");
+        }
+        _ => panic!("one coupon cannot promote the gadget"),
+    }
+    assert!(u.gadget.lg_config_k() == lg_max);
+    kani::cover!(true);
+    core::mem::forget((s, u));
+}
+
+macro_rules! union_sparse_first {
+    ($name:ident, $lgs:expr, $lgm:expr, $t:expr) => {
+        #[kani::proof]
+        #[kani::unwind(10)]
+        #[kani::stub(HllUnion::update_from_array, cut_update_from_array)]
+        #[kani::stub(crate::hll::array4::Array4::update, cut_a4)]
+        #[kani::stub(crate::hll::array6::Array6::update, cut_a6)]
+        #[kani::stub(Array8::update, cut_a8)]
+        #[kani::stub(crate::hll::hash_set::HashSet::update, cut_set)]
+        fn $name() {
+            sparse_first_case($lgs, $lgm, $t);
+        }
+    };
+}
+
+//@ family: union_sparse_first
+//@ props: C03 C17
+//@ tier: thorough
+//@ timeout: 7200
+//@ functions: hll::union::HllUnion::update
+//@ functions: hll::union::HllUnion::update_from_list_or_set
+//@ functions: hll::union::merge_coupons_into_gadget
+//@ functions: hll::union::convert_coupon_mode_to_hll8
+//@ unwind: 10
+//@ stubs: update_from_array, Array4/6/8::update, HashSet::update -> must-not-reach cuts (the match on the mode enum is not folded by symbolic execution)
+//@ bounds: a fresh union of lg_max_k 5 receiving a list-mode sketch of one symbolic coupon with lg_k 4 (smaller), 5 (equal) or 6 (larger) and the target type of the instance (small lg_k: the array promotions that symbolic execution explores behind the unfolded mode match allocate 2^lg_k registers). Measured: more than 14 GB within 10 min on this machine - kept for larger machines
+//@ desc: a coupon-mode input never changes the union's lg_k (coupons are lg_k-independent; only an array-mode input of smaller lg_k down-sizes the union) and its coupon is in the gadget afterwards
+union_sparse_first!(c03_union_sparse_first_smaller_k, 4, 5, HllType::Hll4);
+union_sparse_first!(c03_union_sparse_first_same_k, 5, 5, HllType::Hll8);
+union_sparse_first!(c03_union_sparse_first_larger_k, 6, 5, HllType::Hll6);
+//@ endfamily: x
